@@ -119,6 +119,9 @@ func NewGen(r *Rng, s *Sim, st Stream) *Gen {
 	return &Gen{R: r, S: s, St: st, openQueries: map[int]bool{}, registered: map[int]bool{}}
 }
 
+// Epoch is the index of the first handle issued since the last successful Reset.
+func (g *Gen) Epoch() int { return g.epoch }
+
 func (g *Gen) aliveHandles() []int {
 	var out []int
 	for i, e := range g.S.Issued {
